@@ -593,6 +593,7 @@ func c10r7(c *Ctx) {
 		}
 		c.check(ok, R, f.Key+": the installed buffer is the compression of the whole body", c.pos(swap), "CCompress(body) whenever the sample was shorter than the body", "TryCompress can install the compression of the leading sample as the value: everything after the first TRY_COMPRESS_SIZE bytes of a large compressible value is lost")
 	}
+	c10r7b(c)
 }
 
 func condOf(n ast.Node) ast.Node {
